@@ -124,8 +124,18 @@ NONTUPLES = {'list': lambda: [0, 0], 'int': lambda: 0, 'none': lambda: None, 'nd
              'str': lambda: 'ab', 'float': lambda: 1.0, 'range': lambda: range(2)}
 
 
+NPINT = {'int64': np.int64, 'intp': np.intp, 'int32': np.int32, 'uint8': np.uint8}
+
+
 def mk_index(spec):
     if 'tuple' in spec:
+        if spec.get('np'):
+            # the same integers as NumPy integer scalars (np.argmin / np.arange results are the usual source of an index);
+            # 'mixed': only the first component
+            cast = NPINT[spec['np'].split(':')[0]]
+            if spec['np'].endswith(':mixed'):
+                return tuple([cast(spec['tuple'][0])] + list(spec['tuple'][1:])) if spec['tuple'] else ()
+            return tuple(cast(i) for i in spec['tuple'])
         return tuple(spec['tuple'])
     return NONTUPLES[spec['nontuple']]()
 
@@ -196,6 +206,10 @@ def index_specs(h, k, r, full):
         valid = r.sample(valid, 12)
     for idx in valid:
         out.append({'tuple': list(idx)})
+    # NumPy integer scalars as components of a valid index
+    for n, idx in enumerate(valid[:6] if not full else valid[:24]):
+        kind = ['int64', 'intp', 'int32', 'int64:mixed', 'uint8', 'intp:mixed'][n % 6]
+        out.append({'tuple': list(idx), 'np': kind})
     if dims:
         out.append({'tuple': [-1] * len(dims)})
         out.append({'tuple': [-d for d in dims]})
@@ -253,11 +267,19 @@ def saveload_check(h, tag, E):
         pre = History(store_best_only=not bool(h.store_best_only))
         pre.dump(marker=1.0)
         pre.save(path)
-    h.save(path)
-    after_save = enc_dict(h.__dict__, E)
     fresh = History(store_best_only=not bool(h.store_best_only))
     fresh_before = enc_dict(fresh.__dict__, E)
-    fresh.load(path)
+    try:
+        h.save(path)
+        after_save = enc_dict(h.__dict__, E)
+        fresh.load(path)
+    except Exception as ex:                                         # noqa: BLE001
+        try:
+            os.remove(path)
+        except OSError:
+            pass
+        return {'before': before, 'fresh': fresh_before, 'after': before, 'raised': True,
+                'oracle': 'save()/load() of a history with store_best_only=%r raised %s: %s' % (bool(h.store_best_only), hlib.exc_kind(ex), str(ex)[:120])}
     after = enc_dict(fresh.__dict__, E)
     oracle = None
     if after_save != before:
